@@ -305,6 +305,31 @@ def m_option_transpose(ex, m, argv, guard, st, callee):
     return guard, EnumV(res, zite(is_err, bv(1, 64), bv(0, 64)), vs)
 
 
+def m_option_take(ex, m, argv, guard, st, callee):
+    ref = argv[0]
+    if not isinstance(ref, PlaceRef):
+        raise Unsupported("Option::take through %s" % type(ref).__name__)
+    cur = ex.read_ref(st, ref)
+    ex.write_cell(st, ref.cell, ref.path, EnumV(ex.defs.find_enum('Option'), bv(0, 64), {'None': ()}))
+    return guard, cur
+
+
+def m_split_first(ex, m, argv, guard, st, callee):
+    s = as_slice(ex, st, argv[0])
+    none = EnumV(ex.defs.find_enum('Option'), bv(0, 64), {'None': ()})
+    if not s.backing:
+        return guard, none
+    nonempty = s.length != bv(0, 64)
+    first = ValRef(select(s.backing, s.start))
+    rest = SliceRef(s.backing, s.start + bv(1, 64), s.length - bv(1, 64))
+    return guard, option(ex, nonempty, Agg([first, rest]))
+
+
+def m_ref_vec_into_iter(ex, m, argv, guard, st, callee):
+    g2, sl = m_vec_deref(ex, m, argv, guard, st, callee)
+    return g2, Model('slice_iter', slice=sl, pos=bv(0, 64), by_ref=True, enum=False)
+
+
 def m_option_is(ex, m, argv, guard, st, callee):
     o = deref_any(ex, st, argv[0])
     r = option_is_some(o)
@@ -954,6 +979,13 @@ def m_vec_push(ex, m, argv, guard, st, callee):
 
 
 def m_vec_deref(ex, m, argv, guard, st, callee):
+    hv = _hvec(ex, st, argv[0])
+    if hv is not None:
+        items = st.mem[hv.f['store']].fields
+        present = [x for x in items if x is not None]
+        if not present:
+            return guard, SliceRef([], bv(0, 64), bv(0, 64))
+        return guard, SliceRef([x if x is not None else present[0] for x in items], bv(0, 64), hv.f['len'])
     v = _vec_get(ex, st, argv[0])
     items = v.f['items'].fields
     filler = None
@@ -1133,6 +1165,10 @@ def register(ex):
     A(r'^(?:std::boxed::)?Box::<.*>::new$', m_box_new, 'Box::new')
     A(r'^<(\{closure@[^}]*\}) as (?:std::ops::)?Fn(?:Mut|Once)?<.*>>::call(?:_mut|_once)?$', m_closure_call, 'closure call (inlined body)')
     A(r'^(?:std::option::)?Option::<.*>::map_or::<.*>$', m_option_map_or, 'Option::map_or')
+    A(r'^(?:std::option::)?Option::<.*>::take$', m_option_take, 'Option::take')
+    A(r'^core::slice::<impl \[.*\]>::split_first$', m_split_first, 'slice::split_first')
+    A(r'^<&(?:std::vec::)?Vec<.*> as (?:std::iter::)?IntoIterator>::into_iter$', m_ref_vec_into_iter, '<&Vec<T>>::into_iter')
+    A(r'^<&\[.*\] as (?:std::iter::)?IntoIterator>::into_iter$', m_into_iter_slice, '<&[T]>::into_iter')
     A(r'^(?:std::option::)?Option::<.*>::transpose$', m_option_transpose, 'Option::transpose')
     A(r'^(?:std::option::)?Option::<.*>::map::<.*>$', m_option_map, 'Option::map')
     A(r'^core::slice::<impl \[.*\]>::(get|first|last)(?:::<usize>)?$', m_slice_get, 'slice get/first/last')
